@@ -91,6 +91,24 @@ def FTy.isNoneT : FTy → Bool
   | .noneT => true
   | _ => false
 
+def FTy.isPrimTy : FTy → Bool
+  | .bool | .int | .float | .str => true
+  | _ => false
+
+/-- `all(t in (bool, int, float, str) for t in types_list)` with `types_list` the non-None members, non-empty
+    (decoding.py:361-362) -/
+def unionOfPrims (alts : List FTy) : Bool :=
+  let ms := alts.filter (fun t => !t.isNoneT)
+  !ms.isEmpty && ms.all FTy.isPrimTy
+
+/-- `type(val) is t` for a primitive member `t` -/
+def primMember (raw : Val) : FTy → Bool
+  | .bool => match raw with | .bool _ => true | _ => false
+  | .int => match raw with | .int _ => true | _ => false
+  | .float => match raw with | .float _ => true | _ => false
+  | .str => match raw with | .str _ => true | _ => false
+  | _ => false
+
 /-- hook environment: the user's `encoding_fn` / `decoding_fn` callables -/
 abbrev HEnv := Nat → Val → Out Val
 
@@ -319,10 +337,11 @@ variable (henv : HEnv)
 mutual
 /-- `encode(obj)` — the singledispatch table of encoding.py -/
 def encode : Val → Out Val
-  | .inst _ reg fs =>
-    -- registered classes: `encode.register(cls, cls.to_dict)` (serializable.py:221);
-    -- other dataclasses: generic branch encoding.py:78-88 (every field, metadata ignored)
-    if reg then (toDictL fs).bind fun ps => .ok (.dict false ps) else (encAllF fs).bind fun ps => .ok (.dict false ps)
+  | .inst _ _ fs =>
+    -- registered classes: `encode.register(cls, cls.to_dict)` (serializable.py:221); any other dataclass
+    -- instance: the generic branch (encoding.py:78-84) delegates to `to_dict(obj)` — the same field loop,
+    -- so `to_dict=False` / `encoding_fn` are honoured for items of containers too
+    (toDictL fs).bind fun ps => .ok (.dict false ps)
   | .list xs => (encodeL xs).bind fun ys => .ok (.list ys)       -- encoding.py:97-107
   | .tuple xs => (encodeL xs).bind fun ys => .ok (.list ys)
   | .set xs => (encodeL xs).bind fun ys => .ok (.list ys)
@@ -342,10 +361,6 @@ def encodeL : List Val → Out (List Val)
 def encodeP : List (Val × Val) → Out (List (Val × Val))
   | [] => .ok []
   | (k, v) :: ps => (encode k).bind fun k' => (encode v).bind fun v' => (encodeP ps).bind fun qs => .ok ((k', v') :: qs)
-/-- generic dataclass branch: `d[field.name] = encode(value)` for every field -/
-def encAllF : List (Str × FMeta × Val) → Out (List (Val × Val))
-  | [] => .ok []
-  | (n, _, v) :: fs => (encode v).bind fun v' => (encAllF fs).bind fun qs => .ok ((.str n, v') :: qs)
 /-- `to_dict(dc)` loop body, serializable.py:743-774 (result as association list; `toDictF` below wraps it) -/
 def toDictL : List (Str × FMeta × Val) → Out (List (Val × Val))
   | [] => .ok []
@@ -479,9 +494,9 @@ def decodeStr : Val → Out Val
   | .enum c n => .ok (.str (c ++ '.' :: n))
   | _ => .unmodelled "str() of a container".toList
 
-/-- `_decode_int` (decoding.py:79-86): `int(v)`, then `float(v)` is evaluated for the warning test -/
+/-- `_decode_int` (decoding.py:79-92): `int(v)`; `float(v)` is evaluated only for the warning test -/
 def decodeInt : Val → Out Val
-  | .int n => if floatOverflow n then .raise "OverflowError".toList else .ok (.int n)
+  | .int n => .ok (.int n)     -- `float(v)` may overflow in the warning test: caught, "nothing lost" (decoding.py:84-90)
   | .bool b => .ok (.int (boolInt b))
   | .str s =>
     if !isAscii s then .unmodelled "non-ascii int text".toList
@@ -616,7 +631,9 @@ def decode : FTy → Val → Out Val
   | .list t, raw =>                               -- decode_list (275-283, 362-368)
     (iterOf raw).bind fun xs => (mapOut (decode t) xs).bind fun ys => .ok (.list ys)
   | .union alts, raw =>                           -- decode_union (285-288, 342-359)
-    decodeU (alts.any FTy.isNoneT) alts raw
+    -- a Union of primitives leaves a value whose exact type is one of the members as it is (361-371)
+    if unionOfPrims alts && alts.any (primMember raw) then .ok raw
+    else decodeU (alts.any FTy.isNoneT) alts raw
   | .enum cls ms, v => decodeEnum cls ms v        -- decode_enum (290-292)
   | .literal vals, v => decodeLiteral vals v      -- decode_literal (300-303)
   | .noneT, _ => .unmodelled "NoneType outside a Union".toList
